@@ -152,3 +152,24 @@ func zzStubG1ScalarMult(g *G1, k *Scalar, P *G1) { zzUFObj("g1.scalarmult", g, k
 
 //zz:replace (*ecc/bls12381.G2).ScalarMult set=g1smuf
 func zzStubG2ScalarMult(g *G2, k *Scalar, P *G2) { zzUFObj("g2.scalarmult", g, k, P) }
+
+// whole point decoders as free verdicts (set "g12free"): for harnesses of the parsers above them
+// (abe/cpabe/tkn20), which decide framing and length handling only
+
+//zz:replace (*ecc/bls12381.G1).SetBytes set=g12free
+func zzStubG1SetBytesFree(g *G1, b []byte) error {
+	if zzFreshBool() {
+		return errInputLength
+	}
+	zzHavoc(g)
+	return nil
+}
+
+//zz:replace (*ecc/bls12381.G2).SetBytes set=g12free
+func zzStubG2SetBytesFree(g *G2, b []byte) error {
+	if zzFreshBool() {
+		return errInputLength
+	}
+	zzHavoc(g)
+	return nil
+}
